@@ -22,6 +22,8 @@ def private_array_line(rng):
         for _ in range(0 if rng.random() < 0.15 else rng.randint(1, 5)):      # now and then a header-only block: a crystal without atoms
             out.append("%d %.3f %.4f %.4f %.4f\n" % (rng.randint(1, 92), rng.choice((1.0, 0.5)), rng.random(), rng.random(), rng.random()))
     kind = rng.random()
+    if kind > 0.9:
+        out = ["#F nothing but comments\n", "#C no crystal is defined here\n"]      # a file that defines no crystal: accepted, adds nothing
     if kind < 0.15 and len(names) > 1:
         k = rng.choice([i for i, l in enumerate(out) if l.startswith("#S ")])
         out[k] = out[k].replace("#UCELL", "#XCELL")                  # malformed (no cell): must fail in the same way in every thread
